@@ -25,8 +25,21 @@ func Desc[S ~[]V, V any, Sort constraints.Ordered](slice *S, getter func(index i
 
 // DescByClone 对切片进行降序排序，返回排序后的切片
 func DescByClone[S ~[]V, V any, Sort constraints.Ordered](slice S, getter func(index int) Sort) S {
-	result := CloneSlice(slice)
-	Desc(&result, getter)
+	// getter is addressed by the indices of slice, which stays as it is: sort the indices, then copy
+	if slice == nil {
+		return nil
+	}
+	indices := make([]int, len(slice))
+	for i := range indices {
+		indices[i] = i
+	}
+	sort.SliceStable(indices, func(i, j int) bool {
+		return getter(indices[i]) > getter(indices[j])
+	})
+	result := make(S, len(slice))
+	for i, index := range indices {
+		result[i] = slice[index]
+	}
 	return result
 
 }
@@ -40,8 +53,21 @@ func Asc[S ~[]V, V any, Sort constraints.Ordered](slice *S, getter func(index in
 
 // AscByClone 对切片进行升序排序，返回排序后的切片
 func AscByClone[S ~[]V, V any, Sort constraints.Ordered](slice S, getter func(index int) Sort) S {
-	result := CloneSlice(slice)
-	Asc(&result, getter)
+	// getter is addressed by the indices of slice, which stays as it is: sort the indices, then copy
+	if slice == nil {
+		return nil
+	}
+	indices := make([]int, len(slice))
+	for i := range indices {
+		indices[i] = i
+	}
+	sort.SliceStable(indices, func(i, j int) bool {
+		return getter(indices[i]) < getter(indices[j])
+	})
+	result := make(S, len(slice))
+	for i, index := range indices {
+		result[i] = slice[index]
+	}
 	return result
 }
 
